@@ -23,7 +23,7 @@ func caseGen() *rapid.Generator[Case] {
 		max = 16
 	}
 	sg := gen.ScriptGen(gen.ScriptOpts{
-		Item:        item(),
+		AllowProps: true, AllowRowErr: true, Item: item(),
 		AllowMutate: true,
 		AllowCopy:   true,
 		MinOps:      1,
@@ -56,6 +56,11 @@ func item() *rapid.Generator[gen.Item] {
 	str := gen.StrItem(gen.TokWidth, 4)
 	return rapid.Custom(func(t *rapid.T) gen.Item {
 		it := str.Draw(t, "str")
+		if gen.Rarely(t, "nested", 8) {
+			// a cell holding a cell (by value or by pointer): it shows the inner cell's text, line by line
+			in := it
+			return gen.Item{K: rapid.SampledFrom([]string{"cell", "pcell"}).Draw(t, "nest"), In: &in}
+		}
 		if rapid.IntRange(0, 5).Draw(t, "stringer") == 0 {
 			return gen.Item{K: "if", M: gen.MString, S: it.S, P: rapid.Bool().Draw(t, "ptr")}
 		}
